@@ -17,34 +17,67 @@ var extAtoms = []string{
 // criticalAtoms: the atoms that can end or escape a ClickHouse literal or start a comment.
 var criticalAtoms = []string{`'`, `\`, `"`, "`", `--`, "\n", "\x00", `%`, `)`}
 
-// hostileSet: all atoms; all concatenations of two atoms with at least one core atom (quick) or of any two atoms
-// (thorough); thorough adds all concatenations of three core atoms.  Deterministic order, duplicates
-// (e.g. ' + ' == ”) removed.
-func hostileSet(thorough bool) []string {
+// A phase is one slice of the enumeration: a list of hostile strings and the sites that get them.  Phases are run in
+// order (all sites of phase 1, then phase 2, ...), so an internal deadline cuts the least important strings; the string
+// lists are disjoint and the site sets shrink from phase to phase, so no (site, string) pair is run twice.
+type phase struct {
+	Name    string
+	Strings []string
+	Applies func(s *Site) bool
+}
+
+func phases(thorough bool) []phase {
 	all := append(append([]string{}, coreAtoms...), extAtoms...)
-	isCore := map[string]bool{}
+	isCore, isCrit := map[string]bool{}, map[string]bool{}
 	for _, a := range coreAtoms {
 		isCore[a] = true
 	}
+	for _, a := range criticalAtoms {
+		isCrit[a] = true
+	}
 	seen := map[string]bool{}
-	var out []string
-	add := func(s string) {
-		if !seen[s] {
-			seen[s] = true
-			out = append(out, s)
-		}
-	}
-	for _, a := range all {
-		add(a)
-	}
-	for _, a := range all {
-		for _, b := range all {
-			if thorough || isCore[a] || isCore[b] {
-				add(a + b)
+	collect := func(f func(add func(string))) []string {
+		var out []string
+		f(func(s string) {
+			if !seen[s] {
+				seen[s] = true
+				out = append(out, s)
 			}
+		})
+		return out
+	}
+	pairs := func(keep func(a, b string) bool) []string {
+		return collect(func(add func(string)) {
+			for _, a := range all {
+				for _, b := range all {
+					if keep(a, b) {
+						add(a + b)
+					}
+				}
+			}
+		})
+	}
+	atoms := collect(func(add func(string)) {
+		for _, a := range all {
+			add(a)
+		}
+	})
+	critPairs := pairs(func(a, b string) bool { return isCrit[a] && isCrit[b] })
+	crit1Pairs := pairs(func(a, b string) bool { return isCrit[a] || isCrit[b] })
+	core1Pairs := pairs(func(a, b string) bool { return isCore[a] || isCore[b] })
+	everySite := func(*Site) bool { return true }
+	noCtx := func(s *Site) bool { return s.Ctx == "" }
+	primaryNoCtx := func(s *Site) bool { return s.Ctx == "" && !s.Secondary }
+	if !thorough {
+		return []phase{
+			{"atoms", atoms, everySite},
+			{"pairs_of_critical_atoms", critPairs, func(s *Site) bool { return s.Ctx == "" || !s.Secondary }},
+			{"pairs_with_a_critical_atom", crit1Pairs, primaryNoCtx},
+			{"pairs_with_a_core_atom", core1Pairs, primaryNoCtx},
 		}
 	}
-	if thorough {
+	allPairs := pairs(func(a, b string) bool { return true })
+	triples := collect(func(add func(string)) {
 		for _, a := range coreAtoms {
 			for _, b := range coreAtoms {
 				for _, c := range coreAtoms {
@@ -52,26 +85,32 @@ func hostileSet(thorough bool) []string {
 				}
 			}
 		}
+	})
+	return []phase{
+		{"atoms", atoms, everySite},
+		{"pairs_of_critical_atoms", critPairs, everySite},
+		{"pairs_with_a_critical_atom", crit1Pairs, func(s *Site) bool { return s.Ctx == "" || !s.Secondary }},
+		{"pairs_with_a_core_atom", core1Pairs, noCtx},
+		{"all_pairs", allPairs, noCtx},
+		{"triples_of_core_atoms", triples, noCtx},
 	}
-	return out
 }
 
-// reducedSet: what a *secondary* site (one more request shape around a position whose primary site gets the full
-// set) is given in the quick tier: every atom, and every concatenation of two critical atoms.
-func reducedSet() map[string]bool {
-	out := map[string]bool{}
-	for _, a := range coreAtoms {
-		out[a] = true
-	}
-	for _, a := range extAtoms {
-		out[a] = true
-	}
-	for _, a := range criticalAtoms {
-		for _, b := range criticalAtoms {
-			out[a+b] = true
+// enumerate calls f for every case in priority order; idx is the case number.
+func enumerate(thorough bool, f func(idx, si int, ph string, s string)) int {
+	idx := 0
+	for _, ph := range phases(thorough) {
+		for si := range sites {
+			if !ph.Applies(&sites[si]) {
+				continue
+			}
+			for _, s := range ph.Strings {
+				f(idx, si, ph.Name, s)
+				idx++
+			}
 		}
 	}
-	return out
+	return idx
 }
 
 func sortedKeys[V any](m map[string]V) []string {
